@@ -66,8 +66,9 @@ ASSUMPTIONS = [
     "of the unit module; the model mirrors it, the oracle stream does not use negative addresses",
     "returned values stay within int32 (the wire format); programs are generated terminating (the real executor "
     "has no step bound), the model's fuel is 100000 instructions; the harness stops the real executor after "
-    "10000 instructions / 20 s per message (nqcase.Runner) and reports `nonterminating-subroutine` when the "
-    "reference interpreter, given the same outcomes, ended in at most half as many",
+    "50 x the instructions the reference needs for the subroutine (1000..20000) / 20 s per message (nqcase.Runner) and "
+    "reports `nonterminating-subroutine` when the reference interpreter, given the reported outcomes, ended in at most "
+    "half as many; a branch on a register nothing ever wrote is not generated (netqasm compares None)",
     "measure-directly / remote-state-preparation entanglement requests and wait_* instructions are not modelled "
     "(C08's domain)",
     "the node's register limit is not in the Lean model (NqExec.Node has `cap` only): refusals by it are judged by "
@@ -330,18 +331,20 @@ def exc_suffix(rec):
     return ""
 
 
-def execute(case, gen_rng=None, res=None, insn_limit=nqcase.INSN_LIMIT):
+def execute(case, gen_rng=None, res=None, candidate=False):
     """Run a case on the real code and judge it.  case = {seed, cap, msgs: [...]}; with gen_rng the messages are
     generated on the fly (adapting to the observed allocation state) from case["plan"] and recorded into
     case["msgs"].  -> (violations [(key, what, index of message)], runner)
-    The real executor has no step bound: nqcase.Runner stops a message after `insn_limit` instructions (and after
-    nqcase.WALL_LIMIT seconds); `stopped` below turns that into `nonterminating-subroutine` when the reference
-    ended long before, and into `program-diverges` (no verdict on the code: the program does not end in the
-    reference either) otherwise.  The case ends there."""
+    The real executor has no step bound: nqcase.Runner stops a subroutine after 50 x the instructions the reference
+    needs for it (`limit_for`: nqcase.preflight on a copy of the reference state, before the run; 1000..20000) and
+    after nqcase.WALL_LIMIT seconds; `stopped` below turns that into `nonterminating-subroutine` when the reference,
+    given the reported outcomes, ended long before, and into `program-diverges` (no verdict on the code: the
+    program does not end in the reference either) otherwise.  The case ends there.
+    candidate=True (a shrinking candidate, lines were deleted): a subroutine the pre-flight cannot finish is not
+    sent at all -- raises nqcase.ProgramDiverges."""
     node = "Alice"
     regs = case.get("regs")               # register limit of the node (None: out of reach)
-    runner = nqcase.Runner(["Alice", "Bob"], case["cap"], random.Random(case["seed"]), max_regs=regs,
-                           insn_limit=insn_limit)
+    runner = nqcase.Runner(["Alice", "Bob"], case["cap"], random.Random(case["seed"]), max_regs=regs)
     ref = nqcase.Reference()
     free_regs = (lambda: regs - ref.registers()) if regs is not None else None
     viol = []
@@ -376,10 +379,16 @@ def execute(case, gen_rng=None, res=None, insn_limit=nqcase.INSN_LIMIT):
             key, what = nqcase.judge_abort(refapp, rec)
         except nqcase.ProgramDiverges as e:
             key, what = "program-diverges", "the harness stopped the real executor (%s) and cannot judge: %s" % (rec["aborted"], e)
-        if refapp is not None:
-            runner.max_ref_insns = max(runner.max_ref_insns, refapp.executed)
         viol.append((key, what, idx))
         return True
+
+    def limit_for(prog):
+        if refapp is None or prog is None:
+            return nqcase.INSN_FLOOR
+        est = nqcase.preflight(refapp, prog, case["cap"], regs)
+        if est is None and candidate:
+            raise nqcase.ProgramDiverges("the reference is still running after %d instructions" % nqcase.PREFLIGHT_FUEL)
+        return nqcase.insn_limit_for(nqcase.PREFLIGHT_FUEL if est is None else est)
 
     while True:
         idx += 1
@@ -421,7 +430,7 @@ def execute(case, gen_rng=None, res=None, insn_limit=nqcase.INSN_LIMIT):
                 break
             refapp = None
         elif kind == "sub":
-            rec = runner.send(node, "sub", app=m[1], body=m[2])
+            rec = runner.send(node, "sub", app=m[1], body=m[2], insn_limit=limit_for)
             if stopped(rec):
                 break
             if not rec["quiescent"]:
@@ -433,7 +442,6 @@ def execute(case, gen_rng=None, res=None, insn_limit=nqcase.INSN_LIMIT):
             except nqcase.Impossible as e:
                 viol.append(("impossible-outcome", str(e), idx))
                 break
-            runner.max_ref_insns = max(runner.max_ref_insns, refapp.executed)
             got_replies = [nqcase.show_reply(r) for r in rec["replies"]]
             got_ops = [nqcase.show_op(o) for o in rec["ops"]]
             if refapp.starved:
@@ -486,22 +494,48 @@ def execute(case, gen_rng=None, res=None, insn_limit=nqcase.INSN_LIMIT):
     return viol, runner
 
 
+def branches_read_written_registers(case):
+    """every register a branch instruction reads is written by some earlier line of the same application (text
+    order).  The generator guarantees more (ProgGen.defined); a shrinking candidate that lost the writing line would
+    leave the space the oracle speaks about: netqasm (third-party) compares the None of an undefined register with
+    ==/!= instead of raising, so `bnz M0 L` on an undefined M0 jumps -- for ever, if L is behind."""
+    written = set()
+    for m in case["msgs"]:
+        if m[0] == "init":
+            written = set()
+        if m[0] != "sub":
+            continue
+        for ln in m[2].split("\n"):
+            w = ln.split()
+            if not w:
+                continue
+            if w[0] in ("bez", "bnz") and w[1] not in written:
+                return False
+            if w[0] in ("beq", "bne") and not (w[1] in written and w[2] in written):
+                return False          # blt / bge on None raise in netqasm: refused, as the reference demands
+            if w[0] in ("set", "add", "sub", "addm", "subm", "load", "lea"):
+                written.add(w[1])
+            elif w[0] == "meas":
+                written.add(w[2])
+    return True
+
+
 def shrink(case, key):
     """smallest case (fewer messages, then fewer lines in the last subroutine) that still shows `key`.
-    Deleting lines makes programs that do not terminate (a loop without its counter): the candidates run under a
-    reduced instruction limit (nqcase.shrink_insn_limit), the result is confirmed under the full one."""
-    limit = [nqcase.INSN_LIMIT]
-
+    Deleting lines makes programs that do not terminate (a loop without its counter): such a candidate is
+    recognised by the reference's pre-flight and never sent to the real executor (`execute(candidate=True)`).
+    Candidates whose branches read a register nothing wrote are skipped (`branches_read_written_registers`)."""
     def shows(c):
+        if not branches_read_written_registers(c):
+            return False
         try:
-            v, _ = execute(c, insn_limit=limit[0])
+            v, _ = execute(c, candidate=True)
         except Exception:
             return False
         return any(k == key for k, _w, _i in v)
 
     best = dict(case)
-    v, r0 = execute(best)
-    limit[0] = nqcase.shrink_insn_limit(r0)
+    v, _ = execute(best)
     cut = [i for k, _w, i in v if k == key]
     if cut:
         best["msgs"] = best["msgs"][:cut[0] + 1]
@@ -530,10 +564,6 @@ def shrink(case, key):
                 i += 1
         best["msgs"] = best["msgs"][:mi] + [["sub", cur[1], "\n".join(lines)]] + best["msgs"][mi + 1:]
     best.pop("plan", None)
-    limit[0] = nqcase.INSN_LIMIT
-    if not shows(best):                  # only under the reduced limit: keep the case as it was found
-        best = dict(case)
-        best.pop("plan", None)
     return best
 
 
